@@ -26,7 +26,7 @@ RULE = ("file_formats[bin|raw|bk_wav|bk_turbo_wav] of the real code on: an image
         "sources with 2-4 make_xxx directives (several of the same container with different paths and explicit/inferred tape names, "
         "mixed containers, the same path twice, together with -o), "
         "and real `python -m pdpy11` runs in scratch directories for every output selector and the full cross product "
-        "{-o bin/raw/other/stdout, none} x {--implicit-bin} x {no / one / several make_xxx} x {--lst} (files found = files expected and nothing else, "
+        "{-o bin/raw/other/stdout, none; last components '-', '-.ext', '-x', 'x-', '.bin', dotted, upper-case behind no / ./ / sub/ / absolute directory part} x {--implicit-bin} x {no / one / several make_xxx} x {--lst} (files found = files expected and nothing else, "
         "contents decoded by the Spec readers).  non-trivial = distinct (container, base, image, name) with a non-empty image, "
         "distinct path triple, distinct directive case, distinct CLI scenario")
 LEVEL_TEXT = ("Coq theorems over tables regenerated from bk_wav.py/formats.py on every run: raw identity, bin layout incl. struct.error "
@@ -464,6 +464,19 @@ def gen_cli_cases(rng, tier):
     # -o selectors
     for o in ["x.bin", "x.raw", "out.dat", "OUT.BIN", "noext", "sub/x.bin", "sub/y", "../up.bin", "-", "-.bin", "-.raw", "x.bin.raw", "a.b/c", "ABS:/o/z.bin", "ABS:/o/z"]:
         add([(S, [])], outfile=o)
+    # last path components that look like the stdout spelling, hidden files, dotted and upper-case names,
+    # each bare and behind a directory part: stdout is selected by the WHOLE argument ('-' or '-.<ext>') only
+    k = 0
+    for comp in ["-", "-.bin", "-.raw", "-x", "x-", ".bin", "na.me.with.dots", "N.BIN", "-.BIN", "-.a.b"]:
+        for prefix in ["", "./", "sub/", "ABS:/o/", "../proj/sub/", "sub/deep/../"]:
+            if tier == "quick" and prefix in ("../proj/sub/", "sub/deep/../") and comp not in ("-", "-.bin"):
+                continue
+            if prefix + comp in ("-", "-.bin", "-.raw"):
+                continue        # already above
+            k += 1
+            add([(S, [])], outfile=prefix + comp, lst=(k % 5 == 0), implicit=(k % 7 == 0), note="dash")
+    add([(S, [("make_bin", None, None)])], outfile="./-")
+    add([(S, [("make_raw", "r", None)])], outfile="sub/-.bin", lst=True)
     # --implicit-bin, and nothing at all
     for sn in ["proj/src/prog.mac", "proj/src/PROG.MAC", "proj/src/prog", "proj/src/prog.Mac", "proj/src/p.asm"]:
         add([(sn, [])], implicit=True)
@@ -587,7 +600,7 @@ def run_cli_case(s_, rootbase):
         outfile = _abs(root, s_["outfile"])
         if outfile is not None:
             # argparse takes a separate "-.bin" for an option; the attached spelling reaches the code
-            argv += ["-o" + outfile] if outfile.startswith("-.") else ["-o", outfile]
+            argv += ["-o" + outfile] if (outfile.startswith("-") and outfile != "-") else ["-o", outfile]
         if s_["implicit"]:
             argv.append("--implicit-bin")
         if s_.get("lst"):
@@ -649,7 +662,8 @@ def cli_expected(s_, o):
         outfile = (first[:-4] if first[-4:].lower() == ".mac" else first) + ".bin"
     if outfile is not None:
         kind = "bin" if outfile.split("/")[-1].lower().endswith(".bin") else "raw"
-        if outfile == "-" or (outfile.startswith("-.") and "/" not in outfile and outfile.count(".") == 1):
+        # standard output when and only when the whole argument is '-' or '-.<ext>' (ext without dot or slash)
+        if outfile == "-" or (outfile.startswith("-.") and "/" not in outfile and "." not in outfile[2:]):
             stdout_kind = kind
         else:
             exp.append((os.path.realpath(os.path.join(o["cwd"], outfile)), kind, None))
